@@ -9,17 +9,19 @@ from .common import path_text
 
 EXPLANATION = (
     'Decides the driver-side obligations without which no client can converge, for every definition (they concern the framework classes, not one '
-    "device). C01.PUB: every function of the driver's instance package that stores an authoritative field (the fields behind the public value / "
-    'state_ / enabled views, discovered from the getters) publishes after the store on every normal path - to_set_message for value/state, the '
-    'def/set pair for enabled - with an explicit exemption table (constructors, the documented silent reset_* functions, element enabling, and '
-    'the switch rule function whose only caller publishes). C01.ORDER: the enabled setters store first, then send the definition (or '
-    'delProperty), then the update, and the group setter does so for all of its vectors without early exit. C01.MRO: instances of an '
-    'analysis-only four-level driver hierarchy (SynD(SynC(SynB(SynA(Driver)))), one group per level) are constructed by interpreting the '
-    'metaclass, the group collector and the constructors; a whole-device getProperties evaluated on each must announce the properties of every '
-    'ancestor level. C01.ENUM: on a driver constructed from an analysis-only definition with three groups (one inherited, one property declared '
-    'disabled) every declared property is enumerated by a whole-device getProperties, is addressable by its wire name, and holds every declared '
-    'element. The client half is decided by C15, the transport half by C02, message fidelity by C03/C07 (C07.META: definitions and updates carry '
-    "the property's own current state and values); C01's evidence lists them as imported obligations."
+    "device). C01.PUB: every public mutator of the driver's property objects (element value / bool_value, vector state_, selected_value(s)) is "
+    'evaluated on a driver constructed from an analysis-only definition: after the last store to an authoritative field (the fields behind the '
+    "public value / state_ / enabled views, discovered from the getters) the driver must hand send_message the owning property's update carrying "
+    'the new state; a completeness scan makes sure no function outside these mutators, their helpers and an explicit exemption table '
+    '(constructors, the documented silent reset_* functions, element enabling) stores such a field. C01.ORDER: enabling / disabling a property or '
+    'a group on the constructed driver: for every affected property (all properties of the group, none of another group) the definition - or '
+    'delProperty - is sent first, then the update, and both reflect the new flag (off: delProperty and a suppressed update; on again: definition '
+    'and update). C01.MRO: instances of an analysis-only four-level driver hierarchy (SynD(SynC(SynB(SynA(Driver)))), one group per level) are '
+    'constructed by interpreting the metaclass, the group collector and the constructors; a whole-device getProperties evaluated on each must '
+    'announce the properties of every ancestor level. C01.ENUM: on a driver constructed from an analysis-only definition with three groups (one '
+    'inherited, one property declared disabled) every declared property is enumerated by a whole-device getProperties, is addressable by its wire '
+    'name, and holds every declared element. The client half is decided by C15, the transport half by C02, message fidelity by C03/C07 (C07.META: '
+    "definitions and updates carry the property's own current state and values); C01's evidence lists them as imported obligations."
 )
 NOT_DECIDED = "that the composition converges for every history and fragmentation (a statement about two interacting state machines)."
 ASSUMPTIONS = ["imported obligations: C02 (framing), C03 (codec), C07 (definitions), C15 (client mirror) hold", "the metaclass protocol: type.__new__ stores the namespace it is given"]
